@@ -74,15 +74,17 @@ def select(fn, selector, nth=0):
     return hits[nth]
 
 
-def extract(L, relpath, funcname, selector, nth=0, body_only=False):
-    """returns (callable(state_dict) -> locals dict, info) for the selected statement (or its body when body_only)"""
-    mod = L.load(relpath)
-    path = os.path.join(L.repo, relpath)
-    text = L.source_text(path)
-    tree = ast.parse(text, filename=path)
-    fn = find_function(tree, funcname)
-    node = select(fn, selector, nth)
-    stmts = node.body if body_only else [node]
+def _defining_statement(fn, name, before_line):
+    """the last simple assignment  name = <expr>  of the function that precedes the block (any nesting level), or None"""
+    best = None
+    for n in ast.walk(fn):
+        if isinstance(n, ast.Assign) and len(n.targets) == 1 and isinstance(n.targets[0], ast.Name) and n.targets[0].id == name and n.end_lineno < before_line:
+            if best is None or n.lineno > best.lineno:
+                best = n
+    return best
+
+
+def _build(mod, path, fn, funcname, stmts, relpath):
     esc = _escapes(stmts)
     if esc:
         raise BlockError('block leaves itself through %r' % (esc,))
@@ -92,25 +94,77 @@ def extract(L, relpath, funcname, selector, nth=0, body_only=False):
     for nm in loads:
         if nm not in free and nm not in modnames:
             free.append(nm)
-    # names that are only ever stored inside the block and never read before being stored are not needed; but deciding "read before written" statically is
-    # path dependent, so every loaded non-global name is taken from the state when present there, else left unbound (a NameError then shows a missing precondition)
-    pro = []
-    for nm in free:
-        pro.append(ast.parse("if %r in __state__:\n    %s = __state__[%r]" % (nm, nm, nm)).body[0])
-    ret = ast.parse("return dict(locals())").body[0]
-    f = ast.FunctionDef(name='__block__', args=ast.arguments(posonlyargs=[], args=[ast.arg(arg='__state__')], kwonlyargs=[], kw_defaults=[], defaults=[]),
-                        body=pro + stmts + [ret], decorator_list=[], type_params=[])
-    m = ast.Module(body=[f], type_ignores=[])
-    m = _loader._FloatLiterals().visit(m)
-    ast.fix_missing_locations(m)
-    ns = mod.__dict__
-    code = compile(m, path + ':<block %s:%d>' % (funcname, node.lineno), 'exec')
-    exec(code, ns)
-    block = ns.pop('__block__')
-    info = {'file': relpath, 'function': funcname, 'first_line': node.lineno, 'last_line': getattr(node, 'end_lineno', node.lineno), 'free_variables': free,
-            'dropped': 'statements of %s outside lines %d-%d (the caller supplies an arbitrary state satisfying the stated precondition)' % (funcname, node.lineno,
-                                                                                                                                         getattr(node, 'end_lineno', node.lineno))}
+    first_line = stmts[0].lineno
+    last_line = getattr(stmts[-1], 'end_lineno', stmts[-1].lineno)
+    info = {'file': relpath, 'function': funcname, 'first_line': first_line, 'last_line': last_line, 'free_variables': free, 'prelude': [],
+            'dropped': 'statements of %s outside lines %d-%d (the caller supplies an arbitrary state satisfying the stated precondition; a variable the block only reads '
+                       'and the caller does not supply is computed by the function\'s own preceding assignment to it, listed under prelude)' % (funcname, first_line, last_line)}
+    cache = {}
+
+    def compiled(keys):
+        """the block preceded by the function's own defining assignments of the variables it only reads and that the state lacks (a backward slice over simple
+        assignments, still the real statements)"""
+        if keys in cache:
+            return cache[keys]
+        prelude = []
+        have = set(keys)
+        todo = [nm for nm in free if nm not in stores and nm not in have]
+        seen = set()
+        while todo:
+            nm = todo.pop(0)
+            if nm in seen or nm in have:
+                continue
+            seen.add(nm)
+            d = _defining_statement(fn, nm, first_line)
+            if d is None or _escapes([d]):
+                continue            # left unbound: reading it ends the path as a limit of the harness (see block())
+            prelude.append(d)
+            l2, _s2 = _names([d.value])
+            for x in l2:
+                if x not in modnames and x not in have and x not in seen:
+                    todo.append(x)
+        prelude.sort(key=lambda n: n.lineno)
+        pro = [ast.parse("if %r in __state__:\n    %s = __state__[%r]" % (nm, nm, nm)).body[0] for nm in list(free) + [x for x in seen if x not in free]
+               + [x for d in prelude for x in _names([d.value])[0] if x not in modnames]]
+        ret = ast.parse("return dict(locals())").body[0]
+        f = ast.FunctionDef(name='__block__', args=ast.arguments(posonlyargs=[], args=[ast.arg(arg='__state__')], kwonlyargs=[], kw_defaults=[], defaults=[]),
+                            body=pro + prelude + stmts + [ret], decorator_list=[], type_params=[])
+        m = ast.Module(body=[f], type_ignores=[])
+        m = _loader._FloatLiterals().visit(m)
+        ast.fix_missing_locations(m)
+        ns = mod.__dict__
+        code = compile(m, path + ':<block %s:%d-%d>' % (funcname, first_line, last_line), 'exec')
+        exec(code, ns)
+        blk = ns.pop('__block__')
+        for d in prelude:
+            ln = '%s:%d %s' % (relpath, d.lineno, ast.unparse(d)[:120])
+            if ln not in info['prelude']:
+                info['prelude'].append(ln)
+        cache[keys] = blk
+        return blk
+
+    def block(state):
+        try:
+            return compiled(frozenset(state))(state)
+        except NameError as e:
+            nm = getattr(e, 'name', None)
+            if nm is not None and nm not in state and nm not in stores and nm not in modnames:
+                # a variable the block only reads, which neither the harness nor a preceding simple assignment provides: nothing was learnt about the code
+                raise BlockError('the block at %s:%d reads %r, which the harness does not supply' % (relpath, first_line, nm))
+            raise
     return block, info
+
+
+def extract(L, relpath, funcname, selector, nth=0, body_only=False):
+    """returns (callable(state_dict) -> locals dict, info) for the selected statement (or its body when body_only)"""
+    mod = L.load(relpath)
+    path = os.path.join(L.repo, relpath)
+    text = L.source_text(path)
+    tree = ast.parse(text, filename=path)
+    fn = find_function(tree, funcname)
+    node = select(fn, selector, nth)
+    stmts = node.body if body_only else [node]
+    return _build(mod, path, fn, funcname, stmts, relpath)
 
 
 def extract_range(L, relpath, funcname, first_selector, last_selector):
@@ -137,27 +191,32 @@ def extract_range(L, relpath, funcname, first_selector, last_selector):
             break
     if i1 is None:
         raise BlockError('last statement not found after the first one in the same body')
-    stmts = body[i0:i1 + 1]
-    esc = _escapes(stmts)
-    if esc:
-        raise BlockError('block leaves itself through %r' % (esc,))
-    loads, stores = _names(stmts)
-    modnames = set(mod.__dict__) | set(dir(builtins))
-    free = []
-    for nm in loads:
-        if nm not in free and nm not in modnames:
-            free.append(nm)
-    pro = [ast.parse("if %r in __state__:\n    %s = __state__[%r]" % (nm, nm, nm)).body[0] for nm in free]
-    ret = ast.parse("return dict(locals())").body[0]
-    f = ast.FunctionDef(name='__block__', args=ast.arguments(posonlyargs=[], args=[ast.arg(arg='__state__')], kwonlyargs=[], kw_defaults=[], defaults=[]),
-                        body=pro + stmts + [ret], decorator_list=[], type_params=[])
-    m = ast.Module(body=[f], type_ignores=[])
-    m = _loader._FloatLiterals().visit(m)
-    ast.fix_missing_locations(m)
-    ns = mod.__dict__
-    code = compile(m, path + ':<block %s:%d-%d>' % (funcname, stmts[0].lineno, getattr(stmts[-1], 'end_lineno', stmts[-1].lineno)), 'exec')
-    exec(code, ns)
-    block = ns.pop('__block__')
-    info = {'file': relpath, 'function': funcname, 'first_line': stmts[0].lineno, 'last_line': getattr(stmts[-1], 'end_lineno', stmts[-1].lineno), 'free_variables': free,
-            'dropped': 'statements of %s outside lines %d-%d' % (funcname, stmts[0].lineno, getattr(stmts[-1], 'end_lineno', stmts[-1].lineno))}
-    return block, info
+    return _build(mod, path, fn, funcname, body[i0:i1 + 1], relpath)
+
+
+def extract_between(L, relpath, funcname, after_selector, before_selector):
+    """the consecutive statements of one body strictly between the last statement matching after_selector that precedes the first statement matching
+    before_selector, and that statement: a block delimited by what surrounds it, whatever its own arrangement (loop nest, flat loop, helper call)"""
+    mod = L.load(relpath)
+    path = os.path.join(L.repo, relpath)
+    text = L.source_text(path)
+    tree = ast.parse(text, filename=path)
+    fn = find_function(tree, funcname)
+    last = select(fn, before_selector)
+    body = None
+    for n in ast.walk(fn):
+        for field in ('body', 'orelse', 'finalbody'):
+            b = getattr(n, field, None)
+            if isinstance(b, list) and last in b:
+                body = b
+    if body is None:
+        raise BlockError('closing statement is not in a statement list')
+    i1 = body.index(last)
+    i0 = None
+    for k in range(i1 - 1, -1, -1):
+        if after_selector(body[k]):
+            i0 = k
+            break
+    if i0 is None or i0 + 1 >= i1:
+        raise BlockError('no statements between the delimiting statements')
+    return _build(mod, path, fn, funcname, body[i0 + 1:i1], relpath)
